@@ -186,6 +186,22 @@ def gen(ctx, seed, tier):
                 s[r.randrange(ncalls)] = r.choice(["E5", "E4", "E13", "S1", "S100", "S511", "S4095", "S0"])
             al = r.choice(allocs)
             cases.append("E %s %s D %s %s 0 %s" % (a, a, al[0], al[1], ",".join(s)))
+    # a read error (EIO/EINTR) at each read index, on pairs that are equal up to that block and differ afterwards
+    # (both orders, error on either file): may answer false, never true - the bytes differ
+    for n in ([1025, 4097, 8192, 8193, 12289] if thorough else [1025, 8193]):
+        for (al1, al2, buf) in [("A", "A", 4096), ("N0", "A", 512)]:
+            nb = (n + buf - 1) // buf
+            seed_a = r.randint(0, 99)
+            for j in range(nb + 1):
+                poss = sorted(set(p for p in [j * buf, min(n - 1, j * buf + buf - 1), n - 1] if j * buf <= p < n))
+                for pos in (poss if thorough else poss[:1] + poss[-1:]):
+                    a, b = "@%d:%d" % (n, seed_a), "@%d:%d:%d" % (n, seed_a, pos)
+                    for which in (0, 1):                       # the read of the first / of the second file
+                        if which == 1 and not thorough and r.random() < 0.5:
+                            continue
+                        scr = ",".join(["F"] * (4 + 2 * j + which) + [r.choice(["E5", "E4"])])
+                        cases.append("E %s %s D %s %s 0 %s" % (a, b, al1, al2, scr))
+                        cases.append("E %s %s D %s %s 0 %s" % (b, a, al1, al2, scr))
     cases += ["E M M D A A 0 -", "E M M P A A 0 -"]
     # T: all kinds
     for k in ["R", "D", "LR", "LD", "LX", "F", "S", "C", "M"]:
@@ -300,4 +316,7 @@ def stats(cases, impl):
                 max_name = max(max_name, len(re.sub(r"%[0-9A-Fa-f]{2}", "_", nm.rstrip("/"))))
     return {"case_kinds": kinds, "max_entry_name_length": max_name, "mkdirs_status_histogram": d_status, "equals_results": eq,
             "equals_with_script": sum(1 for c in cases if c.startswith("E ") and not c.endswith(" -")),
+            "equals_read_error_on_differing_pair": sum(1 for c in cases if c.startswith("E ") and not c.endswith(" -")
+                                                       and c.split()[1] != c.split()[2] and c.split()[3] == "D"
+                                                       and "M" not in c.split()[1:3] and ",E" in c.split()[7]),
             "equals_alloc_failures": sum(1 for c in cases if c.startswith("E ") and " N" in c)}
